@@ -38,8 +38,10 @@ package filter
 //@ requires len(f.bitset) > 0 && hreset(f)
 //@ assigns HashBuf
 //@ ensures hreset(f) && r == member(f, key)
+//@ ensures HashBuf == old(HashBuf)
 //@ loop 0:
 //@   invariant hreset(f)
+//@   invariant forall(Iface(h), HashBuf[h] == old(HashBuf)[h], trig(HashBuf[h]))
 //@   invariant all(j, 0, rangeindex+1, f.bitset[fidx(f, j, key)])
 //
 //@ func filter.Build -> r
